@@ -99,7 +99,11 @@ def make_mm():
     Leaf.eStructuralFeatures.append(EAttribute('extra', EString, default_value='dflt'))
     pk.eClassifiers.extend([Node, Leaf, Color, Bad, BadNS])
     Orphan = EClass('Orphan', superclass=(Node,))      # deliberately in no EPackage
-    return {'pk': pk, 'Node': Node, 'Leaf': Leaf, 'Orphan': Orphan, 'Color': Color}
+    # a second package, created WITHOUT nsPrefix (only used by the 'prefixless' scenario family)
+    pk2 = EPackage('extra', nsURI='http://verif/c16/extra')
+    Extra = EClass('Extra', superclass=(Node,))
+    pk2.eClassifiers.append(Extra)
+    return {'pk': pk, 'Node': Node, 'Leaf': Leaf, 'Orphan': Orphan, 'Color': Color, 'pk2': pk2, 'Extra': Extra}
 
 
 STRINGS = ['', 'a', 'two words', ' lead', 'x<y&z>"q\'', 'héllo 世', 'tab\there', 'line\nbreak', '0', 'None']
@@ -968,7 +972,52 @@ def export_scenarios(ctx, out):
     out.coverage['failed_export_scenarios'] = n
 
 
-SCENARIOS = {'metaref': metaref_scenarios, 'export': export_scenarios}
+def prefixless_scenarios(ctx, out):
+    """Models with objects whose class lives in a package created WITHOUT nsPrefix (contained objects that need an
+    explicit type, roots): a save - successful or failing - leaves model, metamodel (name / nsURI / nsPrefix of
+    every reachable package, features) and id bookkeeping as they were; two saves write the same bytes.  What the
+    document looks like for such a package is not judged here."""
+    common.use_repo()
+    rng = common.rng_for(ctx.seed, 'C16:prefixless')
+    scratch = os.path.join(common.BUILD, 'scratch')
+    os.makedirs(scratch, exist_ok=True)
+    n = 0
+    for k in range(10 if ctx.tier == 'quick' else 60):
+        spec = gen_instance_spec(rng, 5)
+        marked = [i for i in range(len(spec['objs'])) if rng.random() < 0.5] or [len(spec['objs']) - 1]
+        for i in marked:
+            spec['objs'][i]['cls'] = 'Extra'
+            spec['objs'][i]['attrs'].pop('extra', None)
+        fmt = rng.choice(['xmi', 'xmi', 'json'])
+        opts = {'use_uuid': rng.random() < 0.4, 'serialize_default': rng.random() < 0.3, 'target': 'uri',
+                'xmi_type': rng.random() < 0.3, 'indent': None}
+        fault = rng.choice([None, 'tostring-raises', 'orphan-child'])
+        hist = {'spec': spec, 'format': fmt, 'options': opts, 'fault': fault}
+        case = {'scenario': 'prefixless', 'seed': ctx.seed, 'tier': ctx.tier, 'history': hist}
+        with tempfile.TemporaryDirectory(dir=scratch) as d:
+            b = build(spec, d, fmt, opts['use_uuid'])
+            if fault:
+                plant(b, spec, fault, b.positions[rng.randrange(len(b.positions))])
+            d0, book0 = dump(b), id_book(b)
+            e1 = do_save(b, fmt, opts)
+            b1 = read(b.path)
+            e2 = do_save(b, fmt, opts)
+            b2 = read(b.path)
+            d2 = dump(b)
+            n += 1
+            how = 'a failing save' if (e1 or e2) else 'save'
+            if d0 != d2:
+                out.fail(sig('purity', fmt, 'prefixless-package'), f'{how} changed ' + first_difference(d0, d2), case)
+            lost = id_book_lost(book0, id_book(b))
+            if lost:
+                out.fail(sig('purity', fmt, 'prefixless-package'), f'{how} changed the id bookkeeping: ' + lost, case)
+            if not e1 and not e2 and b1 != b2:
+                out.fail(sig('idempotence', fmt, 'prefixless-package'), 'two saves in a row wrote different bytes: '
+                         + _firstdiff(b1, b2), case)
+    out.coverage['prefixless_package_scenarios'] = n
+
+
+SCENARIOS = {'metaref': metaref_scenarios, 'export': export_scenarios, 'prefixless': prefixless_scenarios}
 
 
 def option_grid(fmt, thorough):
@@ -1051,6 +1100,7 @@ def run(ctx, out):
     model.close()
     metaref_scenarios(ctx, out)
     export_scenarios(ctx, out)
+    prefixless_scenarios(ctx, out)
     out.coverage.update({
         'evaluations': stats['saves'],
         'distinct_nontrivial': len(stats['distinct']),
@@ -1115,17 +1165,22 @@ def replay(ctx, rep):
         outp = None if opts['target'] == 'uri' else _uri(target)
         fault = case.get('fault')
         if fault:
+            if opts['use_uuid'] and fault['position'] % 2 == 0:
+                do_save(b, fmt, opts, os.path.join(d, 'presave.' + fmt))    # as in check_fault: ids assigned first
             plant(b, spec, fault['kind'], b.positions[fault['position']] if spec['kind'] == 'instance'
                   else fault['position'])
             old = bytes(case['old']) if case.get('old') is not None else b'OLD'
             with open(target, 'wb') as f:
                 f.write(old)
-            d0 = dump(b)
+            d0, book0 = dump(b), id_book(b)
             exc = do_save(b, fmt, opts, outp)
             after = read(target)
+            lost = id_book_lost(book0, id_book(b))
             print(f'planted {fault} ; target pre-filled with {old!r}')
             print(f'save raised: {exc} ; target afterwards: {after!r}')
-            bad = (exc is not None and after != old) or (exc is not None and dump(b) != d0)
+            if lost:
+                print('id bookkeeping: ' + lost)
+            bad = (exc is not None and after != old) or (exc is not None and dump(b) != d0) or bool(lost)
         else:
             d0 = dump(b)
             e1 = do_save(b, fmt, opts, outp)
